@@ -96,7 +96,7 @@ def run(ctx):
     e2(ctx)
     T = 300 if ctx.quick() else 600
     jobs = []
-    combos = [(0, 0), (0, 1), (1, 0), (1, 2), (2, 0), (2, 3), (3, 1), (3, 4), (2, 5), (1, 5), (4, 0), (4, 2), (5, 0), (5, 1)] if ctx.quick() else [(c, r) for c in range(6) for r in range(6)]
+    combos = [(0, 0), (0, 1), (1, 0), (1, 2), (2, 3), (2, 5), (3, 4), (4, 0), (5, 0), (5, 1)] if ctx.quick() else [(c, r) for c in range(6) for r in range(6)]
     for c, r in combos:
         jobs.append(Job("c11.py", "h_scan", {"cfg": c, "root": r, "fix_f1": 0}, T, 60, tag=f"scan cfg{c} root#{r}", meta={"sigtag": "scan-selection", "twin": c == 0 and r == 0}))
     for f1 in ((1, 3, 5, 12) if ctx.quick() else range(1, 15)):
